@@ -713,6 +713,9 @@ def cmd : P String := do
   else if c == "poolok" then do
     let ts ← pTraces
     pure s!"ok {poolOKb ts} {poolOKwhy ts}"
+  else if c == "poolok2" then do
+    let ts ← pTraces
+    pure s!"ok {poolOK2b ts} {poolOK2why ts}"
   else if c == "locksearch" then do
     let limit ← pNat
     let ts ← pTraces
